@@ -23,6 +23,7 @@ import (
 	"strings"
 	"sync"
 	"sync/atomic"
+	"time"
 	"unsafe"
 
 	"verif/harness/internal/core"
@@ -207,7 +208,7 @@ func verdictMismatches(v Verdict, s *Scenario, ev Event, offDetail string) []cor
 		}
 		ms = append(ms, core.Mismatch{Signature: sig, Detail: fmt.Sprintf("decoded stream %v breaks well-formedness clause %q (history %s, embedding %s)", sm, w, histString(s.Hist), s.Emb)})
 	}
-	if v.Geom != "ok" && v.Geom != "" {
+	if v.Geom != "ok" && v.Geom != "" && v.Geom != "free" {
 		sig := "geom-" + v.Geom
 		if v.Geom == "other" {
 			sig += geomTag(s)
@@ -478,6 +479,9 @@ func (r *run) handle(p []byte, extra int) {
 func (r *run) gen(o tlc.Opts, extra int) {
 	ch := make(chan []byte, 8192)
 	o.OnLine = func(p []byte) { ch <- append([]byte(nil), p...) }
+	if o.Timeout == 0 {
+		o.Timeout = 45 * time.Minute // TLC is throttled by the replay workers through the pipe
+	}
 	done := make(chan struct{})
 	go func() {
 		core.Parallel(14, ch, func(p []byte) { r.handle(p, extra) })
